@@ -9,6 +9,7 @@ import (
 	"com.tuntun.rangers/node/src/consensus/model"
 	"com.tuntun.rangers/node/src/consensus/vrf"
 	"com.tuntun.rangers/node/src/core"
+	"com.tuntun.rangers/node/src/middleware"
 	"com.tuntun.rangers/node/src/middleware/log"
 	"com.tuntun.rangers/node/src/middleware/types"
 	"math/big"
@@ -104,4 +105,82 @@ func VerifCalQn(vrfValueRatio, stakeRatio *big.Rat) uint64 { return calQn(vrfVal
 
 func VerifCalcStakeRatio(difficulty, totalStake uint64) *big.Rat {
 	return calcStakeRatio(difficulty, totalStake)
+}
+
+// Verification hook H3e: a Processor with only the party bookkeeping
+// initialised, and a signing party that has verified the proposal (round1
+// started) and is still registered under the proposal key - the state right
+// before waitUntilDone handles ChangedId. Verify messages then enter through
+// Processor.OnMessageVerify exactly as they do from the network.
+type VerifParty struct {
+	P     *Processor
+	party *SignParty
+	r1    *round1
+}
+
+func VerifNewParty(group *model.GroupInfo, preBH, bh *types.BlockHeader, chain core.BlockChain, mi groupsig.ID, castKey string) *VerifParty {
+	verifInitLoggers()
+	p := &Processor{}
+	p.partyManager = make(map[string]Party, 10)
+	p.partyLock = middleware.NewLoglock("partyLock")
+	p.logger = consensusLogger
+	p.finishedParty = common.CreateLRUCache(300)
+	p.futureMessages = common.CreateLRUCache(50)
+
+	party := &SignParty{blockchain: chain, mi: mi,
+		baseParty: baseParty{
+			logger:         p.logger,
+			futureMessages: make(map[string]model.ConsensusMessage),
+			Done:           make(chan byte, 1),
+			Err:            make(chan error, 1),
+			id:             castKey,
+			started:        true,
+		},
+	}
+	party.ChangedId = make(chan string, 1)
+	r0 := &round0{baseRound: &baseRound{partyId: castKey, futureMessages: party.futureMessages,
+		processed: make(map[string]byte), errChan: party.Err, done: party.Done, logger: p.logger, number: 1},
+		mi: mi, blockchain: chain, preBH: preBH, bh: bh, group: group, changedId: party.ChangedId}
+	r1 := &round1{round0: r0}
+	if err := r1.Start(); err != nil {
+		panic(err)
+	}
+	party.rnd = r1
+	p.partyManager[castKey] = party
+	go p.waitUntilDone(party)
+	return &VerifParty{P: p, party: party, r1: r1}
+}
+
+// AnnounceBlockHash does what round0 does once the proposal is verified: the
+// block hash becomes the party id (parked verify messages are then replayed).
+func (v *VerifParty) AnnounceBlockHash() { v.party.ChangedId <- v.r1.bh.Hash.String() }
+
+// Registered reports whether a party is registered under key; Finished whether
+// the key is in the finished-party cache; Parked the number of verify messages
+// parked under key.
+func (v *VerifParty) Registered(key string) bool {
+	v.P.partyLock.Lock("verif")
+	defer v.P.partyLock.Unlock("verif")
+	_, ok := v.P.partyManager[key]
+	return ok
+}
+func (v *VerifParty) Finished(key string) bool {
+	v.P.partyLock.Lock("verif")
+	defer v.P.partyLock.Unlock("verif")
+	return v.P.finishedParty.Contains(key)
+}
+func (v *VerifParty) Parked(key string) int {
+	v.P.partyLock.Lock("verif")
+	defer v.P.partyLock.Unlock("verif")
+	if raw, ok := v.P.futureMessages.Get(key); ok {
+		return len(raw.([]model.ConsensusMessage))
+	}
+	return 0
+}
+
+// Shares returns copies of round1's two share sets, read under the party lock.
+func (v *VerifParty) Shares() (block, beacon map[string]groupsig.Signature) {
+	v.party.lock()
+	defer v.party.unlock()
+	return verifCopy(v.r1.gSignGenerator), verifCopy(v.r1.rSignGenerator)
 }
